@@ -5567,7 +5567,20 @@ impl<'a, 'graph> Builder<'a, 'graph> {
     // follow the whole chain of known redirects: a slot is only ever stored at
     // the end of a chain, so stopping after one hop would load (and visit) a
     // module again every time one of its redirect sources is imported
-    let resolved_specifier = self.graph.resolve(specifier).clone();
+    let resolved_specifier = {
+      let mut resolved = specifier;
+      let mut seen = HashSet::new();
+      seen.insert(specifier);
+      // stop at the first specifier that already has an entry (a loader may
+      // report a final specifier that is itself a redirect source)
+      while !self.graph.module_slots.contains_key(resolved) {
+        match self.graph.redirects.get(resolved) {
+          Some(next) if seen.insert(next) => resolved = next,
+          _ => break,
+        }
+      }
+      resolved.clone()
+    };
     let specifier = &resolved_specifier;
     if options.is_asset {
       // TODO(nayeemrmn): We need to load the module to validate the actual
